@@ -190,21 +190,29 @@ def flatten(ctx):
         exp_m = ("if(let v1::Some($)=HashMap::remove(PATHS,elem(ADD).0)){Derives::extend_from(Entry::or_default(HashMap::entry(%s,HashMap::remove(PATHS,elem(ADD).0)@v1::Some.0)),elem(ADD).1)}else{'()'}") % ANY
         expect_term(ctx, "C08.4", "flatten/merge", site(merge[0][0]), mt, exp_m, "each id's derives are merged (set union) into the specific map under that id's own path")
     # id -> path table covers every entry with a non-empty path
+    path_lids = [lid for lid, sym in syms.items() if sym == "PATHS"]
+    seen_tables = set()
     for lid, sym in syms.items():
         if sym == "PATHS":
             pt = N.local_term(lid)
+            if pt[0] == "try" and pt[1][0] == "mut":
+                pt = pt[1]                   # the table comes from a fallible helper that was put back: `let t = { let mut m = ..; ..; Ok(m) }?`
             init = pt[2] if pt[0] == "mut" else pt
+            while init[0] == "mut" or (init[0] == "try" and init[1][0] == "mut"):
+                init = init[2] if init[0] == "mut" else init[1]      # the caller's name for the helper's table, mutated further by the caller
+            if path_lids.index(lid) > 0 and show(init) in ("HashMap::new()", "Default::default()"):
+                continue                     # the helper's local and the caller's name for its result are one table: judged once
             exp_p = ("Iterator::collect(Iterator::map(Iterator::filter(%s,|1|{Not(Path::is_empty(C1_0.ty.path))}),|1|{match(utils::syn_type_path(C1_0.ty)){"
                      "v1::Ok($)=>Ok((C1_0.id,utils::syn_type_path(C1_0.ty)@v1::Ok.0));v1::Err($)=>Err(utils::syn_type_path(C1_0.ty)@v1::Err.0)}}))?") % REG
             if show(init) in ("HashMap::new()", "Default::default()"):
                 # the same table filled by a loop: one insert of (entry id, path of THIS entry), for every entry with a non-empty path
                 E_ = "elem(%s)" % REG
-                ins = [e for e in q.effects(N, syms) if e["lid"] == lid and e["kind"] == "mutcall" and cshort(e["node"].get("callee", "")) == "HashMap::insert"]
+                ins = [e for e in q.effects(N, syms) if e["lid"] in path_lids and e["kind"] == "mutcall" and cshort(e["node"].get("callee", "")) == "HashMap::insert"]
                 ok = len(ins) == 1
                 detail = "%d inserts into the id -> path table" % len(ins)
                 if ok:
                     args = [show(N.term(a, syms)) for a in ins[0]["node"]["args"]]
-                    ok = args == ["%s.id" % E_, "utils::syn_type_path(%s.ty)?" % E_] and ins[0]["guards"] in (["for(%s)" % REG, "!Path::is_empty(%s.ty.path)" % E_],)
+                    ok = args == ["%s.id" % E_, "utils::syn_type_path(%s.ty)?" % E_] and ins[0]["guards"] in (["for(%s)" % REG, "!Path::is_empty(%s.ty.path)" % E_], ["for(%s)" % REG, "Not(Path::is_empty(%s.ty.path))" % E_])
                     detail = "insert(%s) under %s" % (", ".join(args), ins[0]["guards"])
                 ctx.expect(ok, "C08.4", "flatten/id-path-table", fn["sp"], "id -> path for every entry that has a path", detail)
             else:
